@@ -536,3 +536,71 @@ func truncate(path string, b []byte) error {
 		t.Errorf("OpenFile: %d bad, %d good (want 1, 1)", bad, good)
 	}
 }
+
+// rename resolution: a frozen function that is gone is matched to the one new function of the same
+// receiver and signature (or the same bare name under another receiver); siblings renamed together are
+// told apart by body; an ambiguous or absent candidate leaves the anchor unresolved.
+func TestRenameResolution(t *testing.T) {
+	before := `package snippet
+type T struct{ n int }
+func (t *T) ready() bool { return t.n == 0 }
+func (t *T) alpha(x int) error { t.n = x; return nil }
+func (t *T) beta(x int) error { t.n = -x; return nil }
+func (t *T) gone(s string) {}
+func keep() {}
+`
+	after := `package snippet
+type T struct{ n int }
+func ready(t *T) bool { return t.n == 0 }
+func (t *T) second(x int) error { t.n = -x; return nil }
+func (t *T) first(x int) error { t.n = x; return nil }
+func keep() {}
+func user(t *T) { if ready(t) { mark() } }
+func mark() {}
+`
+	pb := snippetProg(t, before)
+	savedS, savedM := frozenFuncSigs, frozenFuncMeta
+	defer func() { frozenFuncSigs, frozenFuncMeta = savedS, savedM }()
+	frozenFuncSigs, frozenFuncMeta = map[string]string{}, map[string]frozenFn{}
+	for i, fi := range pb.funcList {
+		k := pb.Roots[0].PkgPath + "." + fi.Name
+		sig := sigString(fi.Obj.Type().(*types.Signature))
+		frozenFuncSigs[k] = sig
+		frozenFuncMeta[k] = frozenFn{sig: sig, body: bodyHash(pb, fi), ord: i}
+	}
+	pa := snippetProg(t, after)
+	pa.resolveRenames()
+	pp := pa.Roots[0].PkgPath
+	for old, now := range map[string]string{"T.ready": "ready", "T.alpha": "T.first", "T.beta": "T.second"} {
+		fi := pa.funcs[pp+"."+old]
+		if fi == nil || fi.Now != now || fi.Name != old {
+			t.Errorf("%s: want it resolved to %s, got %+v", old, now, fi)
+		}
+	}
+	if pa.funcs[pp+".T.gone"] != nil {
+		t.Errorf("T.gone has no successor and must stay unresolved")
+	}
+	if fi := pa.funcs[pp+".keep"]; fi == nil || fi.Now != "" {
+		t.Errorf("keep was not renamed")
+	}
+	// a requirement text written for the method is rewritten for the function it became
+	user := pa.funcs[pp+".user"]
+	var target ast.Node
+	ast.Inspect(user.Decl.Body, func(n ast.Node) bool {
+		if es, ok := n.(*ast.ExprStmt); ok && target == nil {
+			target = es
+		}
+		return true
+	})
+	e := NewFactEngine(pa, user)
+	req, err := e.ParseReq("t.ready()", target.Pos())
+	if err != nil {
+		t.Fatalf("requirement on the renamed method: %v", err)
+	}
+	if ok, why, err := e.FactsAt(target, req); err != nil || !ok {
+		t.Errorf("t.ready() should hold at mark(): ok=%v %s %v", ok, why, err)
+	}
+	if recvObj(pa.funcs[pp+".T.ready"]) == nil {
+		t.Errorf("the first parameter of a method turned function is its former receiver")
+	}
+}
